@@ -23,7 +23,109 @@ pub struct Case {
     pub differential: bool,
     /// deviations are only placed at datagram indices >= this (0 = everywhere)
     pub first_index: u32,
+    /// adversarial peer: which endpoint rewrites which of its packets into which catalogue item
+    pub adv: Option<Adv>,
 }
+
+#[derive(Clone, Debug)]
+pub struct Adv {
+    pub attacker: u8,
+    pub space: u8,
+    /// the n-th packet the attacker writes in that space
+    pub nth: u32,
+    pub item: usize,
+}
+
+pub struct AdvItem {
+    pub name: &'static str,
+    /// spaces in which the item is injected
+    pub spaces: &'static [u8],
+    /// which endpoint may play the attacker (2 = both)
+    pub attacker: u8,
+    /// argument: the attacker (so that stream-directed items can use a fresh stream the attacker may open)
+    pub payload: fn(u8) -> Vec<u8>,
+    /// acceptable transport error codes (RFC 9000 20.1): the prescribed one, alternatives the RFC names, PROTOCOL_VIOLATION where section 11 allows a generic code
+    pub allowed: &'static [u64],
+    pub rfc: &'static str,
+}
+
+fn vi(out: &mut Vec<u8>, v: u64) {
+    if v < 1 << 6 {
+        out.push(v as u8);
+    } else if v < 1 << 14 {
+        out.extend_from_slice(&((v as u16) | 0x4000).to_be_bytes());
+    } else if v < 1 << 30 {
+        out.extend_from_slice(&((v as u32) | 0x8000_0000).to_be_bytes());
+    } else {
+        out.extend_from_slice(&(v | 0xc000_0000_0000_0000).to_be_bytes());
+    }
+}
+
+fn frame(ty: u64, fields: &[u64], tail: &[u8]) -> Vec<u8> {
+    let mut o = Vec::new();
+    vi(&mut o, ty);
+    for f in fields {
+        vi(&mut o, *f);
+    }
+    o.extend_from_slice(tail);
+    // pad so that the packet stays long enough for any header-protection sample
+    o.extend_from_slice(&[0u8; 24]);
+    o
+}
+
+const PV: u64 = 0x0a;
+const FLOW: u64 = 0x03;
+const STREAM_LIMIT: u64 = 0x04;
+const STREAM_STATE: u64 = 0x05;
+const FINAL_SIZE: u64 = 0x06;
+const FRAME_ENC: u64 = 0x07;
+const CID_LIMIT: u64 = 0x09;
+const CRYPTO_BUF: u64 = 0x0d;
+
+pub fn adv_catalogue() -> Vec<AdvItem> {
+    vec![
+        // RFC 9000 12.4 table: frames not permitted in Initial / Handshake packets
+        AdvItem { name: "stream-in-long-header-space", spaces: &[0, 1], attacker: 2, payload: |_a| frame(0x0a, &[0, 3], b"abc"), allowed: &[PV], rfc: "12.4/12.5: STREAM only in 0-RTT/1-RTT => PROTOCOL_VIOLATION" },
+        AdvItem { name: "max-data-in-long-header-space", spaces: &[0, 1], attacker: 2, payload: |_a| frame(0x10, &[100_000], b""), allowed: &[PV], rfc: "12.4" },
+        AdvItem { name: "new-connection-id-in-long-header-space", spaces: &[0, 1], attacker: 2, payload: |_a| { let mut t = vec![8u8]; t.extend_from_slice(&[7u8; 8]); t.extend_from_slice(&[9u8; 16]); frame(0x18, &[1, 0], &t) }, allowed: &[PV], rfc: "12.4" },
+        AdvItem { name: "handshake-done-in-long-header-space", spaces: &[0, 1], attacker: 2, payload: |_a| frame(0x1e, &[], b""), allowed: &[PV], rfc: "12.4" },
+        AdvItem { name: "reset-stream-in-long-header-space", spaces: &[0, 1], attacker: 2, payload: |_a| frame(0x04, &[0, 1, 0], b""), allowed: &[PV], rfc: "12.4" },
+        AdvItem { name: "app-close-in-long-header-space", spaces: &[0, 1], attacker: 2, payload: |_a| frame(0x1d, &[1, 0], b""), allowed: &[PV], rfc: "12.4/12.5: CONNECTION_CLOSE of type 0x1d only in 0-RTT/1-RTT" },
+        AdvItem { name: "path-challenge-in-long-header-space", spaces: &[0, 1], attacker: 2, payload: |_a| frame(0x1a, &[], &[1, 2, 3, 4, 5, 6, 7, 8]), allowed: &[PV], rfc: "12.4" },
+        // 1-RTT rule breaches
+        AdvItem { name: "handshake-done-to-server", spaces: &[2], attacker: 0, payload: |_a| frame(0x1e, &[], b""), allowed: &[PV], rfc: "19.20: a server MUST treat receipt of HANDSHAKE_DONE as PROTOCOL_VIOLATION" },
+        AdvItem { name: "new-token-to-server", spaces: &[2], attacker: 0, payload: |_a| frame(0x07, &[4], b"tokn"), allowed: &[PV], rfc: "19.7: servers MUST treat NEW_TOKEN as PROTOCOL_VIOLATION" },
+        AdvItem { name: "ack-of-unsent-packet", spaces: &[2], attacker: 2, payload: |_a| frame(0x02, &[5000, 0, 0, 0], b""), allowed: &[PV], rfc: "13.1: acknowledging a packet that was not sent SHOULD be PROTOCOL_VIOLATION" },
+        AdvItem { name: "max-streams-above-2^60", spaces: &[2], attacker: 2, payload: |_a| frame(0x12, &[(1u64 << 60) + 1], b""), allowed: &[FRAME_ENC, STREAM_LIMIT, PV], rfc: "19.11: FRAME_ENCODING_ERROR" },
+        AdvItem { name: "stream-offset-beyond-2^62", spaces: &[2], attacker: 2, payload: |a| frame(0x0e, &[if a == 0 { 4 } else { 1 }, (1u64 << 62) - 2, 3], b"abc"), allowed: &[FRAME_ENC, FLOW, PV], rfc: "19.8: FRAME_ENCODING_ERROR or FLOW_CONTROL_ERROR" },
+        AdvItem { name: "stream-data-beyond-connection-limit", spaces: &[2], attacker: 2, payload: |a| frame(0x0e, &[if a == 0 { 4 } else { 1 }, 3_000_000_000, 3], b"abc"), allowed: &[FLOW, PV], rfc: "4.1: FLOW_CONTROL_ERROR" },
+        AdvItem { name: "stream-id-beyond-limit", spaces: &[2], attacker: 0, payload: |_a| frame(0x0a, &[4 * 5000, 1], b"a"), allowed: &[STREAM_LIMIT, PV], rfc: "4.6: STREAM_LIMIT_ERROR" },
+        AdvItem { name: "stream-for-unopened-local-stream", spaces: &[2], attacker: 0, payload: |_a| frame(0x0a, &[4 * 3 + 1, 1], b"a"), allowed: &[STREAM_STATE, PV], rfc: "19.8: STREAM_STATE_ERROR" },
+        AdvItem { name: "max-stream-data-for-unopened-local-stream", spaces: &[2], attacker: 0, payload: |_a| frame(0x11, &[4 * 3 + 1, 100], b""), allowed: &[STREAM_STATE, PV], rfc: "19.10: STREAM_STATE_ERROR" },
+        AdvItem { name: "new-connection-id-retire-prior-to-above-seq", spaces: &[2], attacker: 2, payload: |_a| { let mut t = vec![8u8]; t.extend_from_slice(&[7u8; 8]); t.extend_from_slice(&[9u8; 16]); frame(0x18, &[5, 6], &t) }, allowed: &[FRAME_ENC, PV], rfc: "19.15: FRAME_ENCODING_ERROR" },
+        AdvItem { name: "new-connection-id-length-0", spaces: &[2], attacker: 2, payload: |_a| { let mut t = vec![0u8]; t.extend_from_slice(&[9u8; 16]); frame(0x18, &[5, 0], &t) }, allowed: &[FRAME_ENC, PV], rfc: "19.15: FRAME_ENCODING_ERROR" },
+        AdvItem { name: "new-connection-id-length-21", spaces: &[2], attacker: 2, payload: |_a| { let mut t = vec![21u8]; t.extend_from_slice(&[7u8; 21]); t.extend_from_slice(&[9u8; 16]); frame(0x18, &[5, 0], &t) }, allowed: &[FRAME_ENC, PV], rfc: "19.15: FRAME_ENCODING_ERROR" },
+        AdvItem { name: "new-connection-id-above-limit", spaces: &[2], attacker: 2, payload: |_a| {
+            let mut o = Vec::new();
+            for seq in 10u64..22 {
+                let mut t = vec![8u8];
+                t.extend_from_slice(&[seq as u8; 8]);
+                t.extend_from_slice(&[seq as u8 + 100; 16]);
+                let mut fr = Vec::new();
+                vi(&mut fr, 0x18);
+                vi(&mut fr, seq);
+                vi(&mut fr, 0);
+                fr.extend_from_slice(&t);
+                o.extend_from_slice(&fr);
+            }
+            o
+        }, allowed: &[CID_LIMIT, PV], rfc: "5.1.1: CONNECTION_ID_LIMIT_ERROR" },
+        AdvItem { name: "retire-connection-id-unissued", spaces: &[2], attacker: 2, payload: |_a| frame(0x19, &[900], b""), allowed: &[PV], rfc: "19.16: PROTOCOL_VIOLATION" },
+        AdvItem { name: "crypto-beyond-buffer", spaces: &[1], attacker: 2, payload: |_a| frame(0x06, &[1 << 30, 3], b"abc"), allowed: &[CRYPTO_BUF, PV], rfc: "7.5: CRYPTO_BUFFER_EXCEEDED" },
+        AdvItem { name: "unknown-frame-type", spaces: &[0, 1, 2], attacker: 2, payload: |_a| frame(0x3f, &[], b""), allowed: &[FRAME_ENC, PV], rfc: "12.4: FRAME_ENCODING_ERROR" },
+    ]
+}
+
 
 fn menu_null() -> Vec<Action> {
     vec![Action::Drop, Action::Dup(1000), Action::Delay(3)]
@@ -50,7 +152,7 @@ pub fn family(name: &str, tier: Tier) -> Vec<Case> {
             // covering set: every value of every dimension at least once with null TLS
             let mut add = |s: Scenario, k: usize| {
                 let menu = if s.tls == Tls::Null { menu_null() } else { menu_tls() };
-                out.push(Case { scn: s, menu, k, extra: vec![], expect: Expect::Complete, injects: vec![], differential: false, first_index: 0 });
+                out.push(Case { scn: s, menu, k, extra: vec![], expect: Expect::Complete, injects: vec![], differential: false, first_index: 0, adv: None });
             };
             let mut s = Scenario::base("data/echo-10000-whole");
             s.tasks = vec![echo_task(10_000, 0)];
@@ -119,7 +221,7 @@ pub fn family(name: &str, tier: Tier) -> Vec<Case> {
             // L1: blocking of every kind, finite faults, must complete
             let mut add = |s: Scenario, k: usize| {
                 let menu = if s.tls == Tls::Null { menu_null() } else { menu_tls() };
-                out.push(Case { scn: s, menu, k, extra: bh(&[0, 1, 2]), expect: Expect::Complete, injects: vec![], differential: false, first_index: 0 });
+                out.push(Case { scn: s, menu, k, extra: bh(&[0, 1, 2]), expect: Expect::Complete, injects: vec![], differential: false, first_index: 0, adv: None });
             };
             let mut s = Scenario::base("live/stream-credit");
             s.server.stream_window = Some(1000);
@@ -159,7 +261,7 @@ pub fn family(name: &str, tier: Tier) -> Vec<Case> {
                 s.server.handshake_ms = Some(5000);
                 s.tasks = vec![echo_task(6000, 1000)];
                 s.horizon_ms = 60_000;
-                out.push(Case { scn: s, menu: vec![], k: 0, extra: vec![Action::BlackholeFrom(0), Action::BlackholeFrom(1), Action::BlackholeFrom(2)], expect: Expect::Report, injects: vec![], differential: false, first_index: 0 });
+                out.push(Case { scn: s, menu: vec![], k: 0, extra: vec![Action::BlackholeFrom(0), Action::BlackholeFrom(1), Action::BlackholeFrom(2)], expect: Expect::Report, injects: vec![], differential: false, first_index: 0, adv: None });
             }
         }
         // ------------------------------------------------------------------ FLOW
@@ -177,7 +279,7 @@ pub fn family(name: &str, tier: Tier) -> Vec<Case> {
                     s.client.conn_window = Some(cw.max(64));
                     s.tasks = vec![echo_task(if sw.min(cw) < 10 { 40 } else { 3000 }, 0)];
                     s.horizon_ms = 120_000;
-                    out.push(Case { scn: s, menu: menu_null(), k: 1, extra: vec![], expect: Expect::Complete, injects: vec![], differential: false, first_index: 0 });
+                    out.push(Case { scn: s, menu: menu_null(), k: 1, extra: vec![], expect: Expect::Complete, injects: vec![], differential: false, first_index: 0, adv: None });
                 }
             }
             // write > window then reset: the RESET_STREAM final size
@@ -190,7 +292,7 @@ pub fn family(name: &str, tier: Tier) -> Vec<Case> {
                     vec![Op::OpenBidi, Op::Write(100, 0), Op::Sleep(60), Op::Reset(5), Op::Sleep(200)],
                     vec![Op::OpenUni, Op::Write(100, 0), Op::Reset(5), Op::Sleep(200)],
                 ];
-                out.push(Case { scn: s, menu: menu_null(), k: 1, extra: vec![], expect: Expect::Nothing, injects: vec![], differential: false, first_index: 0 });
+                out.push(Case { scn: s, menu: menu_null(), k: 1, extra: vec![], expect: Expect::Nothing, injects: vec![], differential: false, first_index: 0, adv: None });
             }
             // stream-count limits
             for lim in [1u64, 2] {
@@ -198,7 +300,7 @@ pub fn family(name: &str, tier: Tier) -> Vec<Case> {
                 s.server.max_bidi_remote = Some(lim);
                 s.server.max_uni_remote = Some(lim);
                 s.tasks = vec![[echo_task(300, 0), echo_task(300, 0), echo_task(300, 0)].concat(), [uni_task(300, 0), uni_task(300, 0), uni_task(300, 0)].concat()];
-                out.push(Case { scn: s, menu: menu_null(), k: if quick { 1 } else { 2 }, extra: vec![], expect: Expect::Complete, injects: vec![], differential: false, first_index: 0 });
+                out.push(Case { scn: s, menu: menu_null(), k: if quick { 1 } else { 2 }, extra: vec![], expect: Expect::Complete, injects: vec![], differential: false, first_index: 0, adv: None });
             }
         }
         // ------------------------------------------------------------------ LIFECYCLE
@@ -230,7 +332,7 @@ pub fn family(name: &str, tier: Tier) -> Vec<Case> {
                     if quick && idx % 2 == 0 && act != "reset" {
                         continue;
                     }
-                    out.push(Case { scn: s, menu: menu_null(), k: 1, extra: vec![], expect: Expect::Nothing, injects: vec![], differential: false, first_index: 0 });
+                    out.push(Case { scn: s, menu: menu_null(), k: 1, extra: vec![], expect: Expect::Nothing, injects: vec![], differential: false, first_index: 0, adv: None });
                 }
             }
             // peer-driven: server sends STOP_SENDING / resets its direction / closes
@@ -242,7 +344,7 @@ pub fn family(name: &str, tier: Tier) -> Vec<Case> {
                 let mut s = Scenario::base(name);
                 f(&mut s.server_mode);
                 s.tasks = base_tasks();
-                out.push(Case { scn: s, menu: menu_null(), k: 1, extra: vec![], expect: Expect::Nothing, injects: vec![], differential: false, first_index: 0 });
+                out.push(Case { scn: s, menu: menu_null(), k: 1, extra: vec![], expect: Expect::Nothing, injects: vec![], differential: false, first_index: 0, adv: None });
             }
         }
         // ------------------------------------------------------------------ HS
@@ -253,14 +355,14 @@ pub fn family(name: &str, tier: Tier) -> Vec<Case> {
                 s.mtu = mtu;
                 s.tasks = vec![echo_task(2000, 0)];
                 let menu = if tls == Tls::Null { menu_null() } else { menu_tls() };
-                out.push(Case { scn: s, menu, k: if tls == Tls::Null { 2 } else if quick { 1 } else { 2 }, extra: vec![], expect: Expect::Complete, injects: vec![], differential: false, first_index: 0 });
+                out.push(Case { scn: s, menu, k: if tls == Tls::Null { 2 } else if quick { 1 } else { 2 }, extra: vec![], expect: Expect::Complete, injects: vec![], differential: false, first_index: 0, adv: None });
             }
             // early close by the server application: CONNECTION_CLOSE packets count too
             let mut s = Scenario::base("hs/tls-server-early-close");
             s.tls = Tls::S2n;
             s.server_mode.close_after_ms = Some(0);
             s.tasks = vec![echo_task(2000, 0)];
-            out.push(Case { scn: s, menu: menu_tls(), k: 1, extra: vec![], expect: Expect::Nothing, injects: vec![], differential: false, first_index: 0 });
+            out.push(Case { scn: s, menu: menu_tls(), k: 1, extra: vec![], expect: Expect::Nothing, injects: vec![], differential: false, first_index: 0, adv: None });
         }
         // ------------------------------------------------------------------ MIGRATE: rebinding, connection-id rotation
         "migrate" => {
@@ -276,7 +378,7 @@ pub fn family(name: &str, tier: Tier) -> Vec<Case> {
                 s.horizon_ms = 120_000;
                 // RFC 9000 9: no migration before the handshake is confirmed - a client whose address changes
                 // mid-handshake legitimately fails to connect, so deviations start after the handshake
-                out.push(Case { scn: s, menu: vec![Action::RebindClient, Action::Drop, Action::Delay(3)], k: if quick { 1 } else { 2 }, extra: vec![], expect: Expect::Complete, injects: vec![], differential: false, first_index: 10 });
+                out.push(Case { scn: s, menu: vec![Action::RebindClient, Action::Drop, Action::Delay(3)], k: if quick { 1 } else { 2 }, extra: vec![], expect: Expect::Complete, injects: vec![], differential: false, first_index: 10, adv: None });
             }
             // connection-id expiry: the stock minimum lifetime (60 s) in a 150 s keep-alive scenario
             let mut s = Scenario::base("migrate/rotation-60s");
@@ -293,7 +395,29 @@ pub fn family(name: &str, tier: Tier) -> Vec<Case> {
             ops.push(Op::AwaitReader);
             s.tasks = vec![ops];
             s.horizon_ms = 400_000;
-            out.push(Case { scn: s, menu: vec![Action::RebindClient, Action::Drop], k: 1, extra: vec![], expect: Expect::Complete, injects: vec![], differential: false, first_index: 10 });
+            out.push(Case { scn: s, menu: vec![Action::RebindClient, Action::Drop], k: 1, extra: vec![], expect: Expect::Complete, injects: vec![], differential: false, first_index: 10, adv: None });
+        }
+        // ------------------------------------------------------------------ ADV: an otherwise honest peer that breaks one rule
+        "adv" => {
+            let cat = adv_catalogue();
+            for (i, item) in cat.iter().enumerate() {
+                for attacker in [crate::record::CLIENT, crate::record::SERVER] {
+                    if item.attacker != 2 && item.attacker != attacker {
+                        continue;
+                    }
+                    for &space in item.spaces {
+                        // injection point: every packet index of the honest run in that space (the run has at
+                        // most ~3 packets per long-header space and ~12 in the application space)
+                        let nths: Vec<u32> = if space == 2 { if quick { vec![0, 1, 3, 6] } else { (0..10).collect() } } else { vec![0, 1] };
+                        for nth in nths {
+                            let mut s = Scenario::base(&format!("adv/{}-{}-sp{}-n{}", item.name, if attacker == 0 { "client-attacks" } else { "server-attacks" }, space, nth));
+                            s.tasks = vec![echo_task(6000, 1000)];
+                            s.horizon_ms = 30_000;
+                            out.push(Case { scn: s, menu: vec![], k: 0, extra: vec![], expect: Expect::Nothing, injects: vec![], differential: false, first_index: 0, adv: Some(Adv { attacker, space, nth, item: i }) });
+                        }
+                    }
+                }
+            }
         }
         // ------------------------------------------------------------------ STRAY: datagrams for no connection
         "stray" => {
@@ -312,7 +436,7 @@ pub fn family(name: &str, tier: Tier) -> Vec<Case> {
                     }
                     size += runs * step;
                 }
-                out.push(Case { scn: s, menu: vec![], k: 0, extra: vec![], expect: Expect::Complete, injects, differential: false, first_index: 0 });
+                out.push(Case { scn: s, menu: vec![], k: 0, extra: vec![], expect: Expect::Complete, injects, differential: false, first_index: 0, adv: None });
             }
         }
         // ------------------------------------------------------------------ FORGE: forged variants of genuine datagrams
@@ -324,12 +448,12 @@ pub fn family(name: &str, tier: Tier) -> Vec<Case> {
                 // with null TLS nothing is authenticated: only the handshake datagrams (Initial packets are
                 // protected by nothing there either) - so null is used for replays only
                 let menu = if tls == Tls::S2n { vec![Action::Forge(0), Action::Forge(1), Action::Forge(2), Action::Forge(3)] } else { vec![Action::Dup(60_000), Action::Dup(400_000)] };
-                out.push(Case { scn: s, menu, k: 1, extra: vec![], expect: Expect::Complete, injects: vec![], differential: tls == Tls::S2n, first_index: 0 });
+                out.push(Case { scn: s, menu, k: 1, extra: vec![], expect: Expect::Complete, injects: vec![], differential: tls == Tls::S2n, first_index: 0, adv: None });
             }
             let mut s = Scenario::base("forge/tls-replays");
             s.tls = Tls::S2n;
             s.tasks = vec![echo_task(3000, 1000)];
-            out.push(Case { scn: s, menu: vec![Action::Dup(1000), Action::Dup(60_000), Action::Dup(400_000)], k: if quick { 1 } else { 2 }, extra: vec![], expect: Expect::Complete, injects: vec![], differential: false, first_index: 0 });
+            out.push(Case { scn: s, menu: vec![Action::Dup(1000), Action::Dup(60_000), Action::Dup(400_000)], k: if quick { 1 } else { 2 }, extra: vec![], expect: Expect::Complete, injects: vec![], differential: false, first_index: 0, adv: None });
         }
         // ------------------------------------------------------------------ KEYUP (hook H5)
         "keyup" => {
@@ -350,7 +474,7 @@ pub fn family(name: &str, tier: Tier) -> Vec<Case> {
                 // deviations start after the handshake: a lost handshake flight inflates the RTT estimate to
                 // ~1 s and with it the PTO-long key retention window beyond the artificial update interval of
                 // hook H5 - a state real AEAD limits cannot produce
-                out.push(Case { scn: s, menu: vec![Action::Drop, Action::Delay(3), Action::Dup(1000)], k: 1, extra: vec![], expect: Expect::Complete, injects: vec![], differential: false, first_index: 12 });
+                out.push(Case { scn: s, menu: vec![Action::Drop, Action::Delay(3), Action::Dup(1000)], k: 1, extra: vec![], expect: Expect::Complete, injects: vec![], differential: false, first_index: 12, adv: None });
             }
         }
         _ => panic!("unknown family {}", name),
@@ -419,7 +543,7 @@ pub fn property(p: &str) -> Option<PropertySpec> {
         "C01" => spec(vec!["data"]),
         "C02" => spec(vec!["live"]),
         "C03" => spec(vec!["fc"]),
-        "C04" => spec(vec!["credit"]),
+        "C04" => Some(PropertySpec { families: vec!["data", "live", "flow", "lifecycle", "hs", "adv"], monitors: vec!["credit", "adv"] }),
         "C08" => spec(vec!["ack"]),
         "C09" => spec(vec!["loss"]),
         "C10" => spec(vec!["sendgate"]),
@@ -447,7 +571,12 @@ pub fn run_monitors(names: &[String], case: &Case, r: &Record, only_finite_fault
                 monitors::mon_live(&case.scn, r, expect, &mut out)
             }
             "fc" => monitors::mon_fc(&case.scn, r, &mut out),
-            "credit" => monitors::mon_credit(&case.scn, r, &mut out),
+            "credit" => {
+                // with a rewriting attacker the frames it "sends" are not the library's own
+                if case.adv.is_none() {
+                    monitors::mon_credit(&case.scn, r, &mut out)
+                }
+            }
             "ack" => monitors::mon_ack(&case.scn, r, &mut out),
             "amp" => monitors::mon_amp(&case.scn, r, &mut out),
             "txcons" => monitors::mon_txcons(&case.scn, r, &mut out),
@@ -459,6 +588,11 @@ pub fn run_monitors(names: &[String], case: &Case, r: &Record, only_finite_fault
             "keyup" => monitors::mon_keyup(&case.scn, r, &mut out),
             "stray" => monitors::mon_stray(&case.scn, r, &mut out),
             "cid" => monitors::mon_cid(&case.scn, r, &mut out),
+            "adv" => {
+                if let Some(adv) = &case.adv {
+                    monitors::mon_adv(&case.scn, r, adv, &mut out)
+                }
+            }
             "auth" => monitors::mon_auth(&case.scn, r, &mut out),
             other => panic!("unknown monitor {}", other),
         }
